@@ -130,7 +130,12 @@ def _report(prop, exe, ex, evs, r, path, cfg, out):
         if ex2.dir: c.rmtree(ex2.dir)
         if rep: break
     if not rep:
-        raise Broken('ConcTrace rejection did not repeat in 4 further runs: %s at %s' % (ex.desc(), json.dumps(bad)[:200]))
+        # keep the evidence: a schedule-dependent rejection that does not recur is not reported as a violation, but it must be inspectable
+        d = c.replay_dir(prop, 'unrepeated'); shutil.copy(path, os.path.join(d, 'conc_trace.ndjson'))
+        if ex.trace and os.path.exists(ex.trace): shutil.copy(ex.trace, os.path.join(d, 'full_trace.ndjson'))
+        json.dump(dict(kind='conc', prop=prop, exec=ex.desc(), cfg=cfg, line=idx, event=bad, context=evs[max(0, idx - 12):idx + 1]), open(os.path.join(d, 'replay.json'), 'w'), indent=1)
+        c.save_tv(d)
+        raise Broken('ConcTrace rejection did not repeat in 4 further runs: %s at %s (kept in %s)' % (ex.desc(), json.dumps(bad)[:200], d))
     d = c.replay_dir(prop, 'conc')
     shutil.copy(path, os.path.join(d, 'conc_trace.ndjson'))
     ctx = evs[max(0, idx - 12):idx + 1]
